@@ -33,7 +33,7 @@ RULE = (
   "without contact (so filters both keep and reject something); distinct = hash of the scene spec"
 )
 BOUNDS = {
-  "quick": "36 type pairs x 2 orientations x 4 (margin,gap) x 8 worlds, static geom first; 36 type pairs x 1 orientation x 1 (margin,gap) x 8 worlds, "
+  "quick": "35 type pairs x 2 orientations x 4 (margin,gap) x 8 worlds, static geom first; 35 type pairs x 1 orientation x 1 (margin,gap) x 8 worlds, "
   "static geom last (mocap body for even seeds, static child body for odd seeds); 7 type rotations x 3 layouts x 2 margins x nworld {1,4}, plane first; "
   "7 type rotations x 3 layouts x 1 margin x nworld 4, plane last; rows N in {2,3,6}; 4 pair-margin scenes; x 48 configs",
   "thorough": "as quick with 5 orientations and static/moving swap; static geom last on {mocap, static child} x 2 orientations x 4 (margin,gap); "
